@@ -187,6 +187,14 @@ theorem query_whitespace_irrelevant (ts : List Tok) : parseQ {} (ts.filter notS)
 theorem query_round_trip (ts : List Tok) (q : MQ) (h : parseQ {} ts = .ok q) : parseQ {} q.toks = .ok q :=
   parseQ_reparse ts q h
 
+/-- `parseMQ (render q) = q` for the query AST (`[only|not]? type (and expr)*` | `expr (and expr)*`, `expr` =
+`( feature [: value] )` with a length / number / percentage / ident / hex colour / string value), whatever white
+space the rendering puts between the tokens: every query of the grammar is accepted, its items are exactly its
+tokens in order, `mediaType` is set exactly for a bare media type -/
+theorem query_ast_round_trip (a : QAst) (hv : a.Valid) (ts : List Tok) (hts : ts.filter notS = a.toks) :
+    parseQ {} ts = .ok a.toMQ := by
+  rw [← parseQ_filter_S, hts]; exact parseQ_ast a hv
+
 /-- a list: every medium of an accepted list is itself a well-formed query (it parses, stand-alone, to itself) —
 one malformed query invalidates the whole list. Proved for the parser with the proposed repair (`strict`). -/
 theorem list_media_wellformed_repaired (ft : Bool) (ts : List Tok) (items : List LItem)
@@ -291,5 +299,18 @@ example :
 /-- a query with features is accepted and keeps its tokens -/
 example : ∃ q, parseQ {} [tIdent wTv, tSpace, tIdent wAnd, tSpace, tChar cOpen, tIdent wColor, tChar cClose] = .ok q ∧
     q.toks.length = 5 := ⟨_, rfl, rfl⟩
+
+/-- a valid AST: `not tv and (color: #fff) and (x)` -/
+example : (QAst.typed (some (tIdent [110, 111, 116])) (tIdent wTv)
+    [(tIdent wAnd, ⟨tIdent wColor, some { typ := .hash, val := [35, 102, 102, 102] }⟩),
+     (tIdent wAnd, ⟨tIdent [120], none⟩)]).Valid := by
+  refine ⟨?_, rfl, by decide, ?_⟩
+  · intro p hp; cases hp; exact ⟨rfl, by decide⟩
+  · intro p hp
+    simp at hp
+    rcases hp with rfl | rfl
+    · refine ⟨rfl, by decide, rfl, ?_⟩
+      intro v hv; cases hv; exact ⟨.color, by decide⟩
+    · exact ⟨rfl, by decide, rfl, by intro v hv; cases hv⟩
 
 end CssVerif.C17
